@@ -176,6 +176,16 @@ def run(tier, seed):
                 if own_first_exists:
                     files["/p/x.inc"] = {"stmts": [("db", 0x55)]}
                 cases.append((files, search, "/cwd", "/p/main.asm"))
+    # the ROOT file given by a relative name that exists only in a search-path directory (not in the
+    # working directory): it is found there, and its own includes resolve next to it
+    for search in (["/lib1"], ["/lib2", "/lib1"], ["../lib1"], ["/lib1", "/lib2"]):
+        for with_local in (0, 1):
+            files = {"/lib1/root.asm": {"stmts": [("db", 0x10), ("include", "part.inc"), ("incbin", "p.bin"), ("db", 0x20)]},
+                     "/lib1/part.inc": {"stmts": [("db", 0x50)]}, "/lib1/p.bin": {"raw": bytes([0x4C])},
+                     "/lib2/part.inc": {"stmts": [("db", 0x60)]}}
+            if with_local:
+                files["/cwd/part.inc"] = {"stmts": [("db", 0x70)]}
+            cases.append((files, search, "/cwd", "root.asm"))
     n_exh = len(cases)
     # (2) include graphs of depth <= 3 with relative names crossing directories; after an included
     #     file ends, lookups continue relative to the including file
@@ -230,7 +240,7 @@ def run(tier, seed):
     for k, (files, search, cwd, root) in enumerate(cases):
         fmap = {p: (render(f["stmts"]).encode() if "stmts" in f else f["raw"]) for p, f in files.items()}
         # the root is named relative to the process working directory where possible
-        rootarg = posixpath.relpath(root, cwd) if k % 2 else root
+        rootarg = root if not root.startswith("/") else (posixpath.relpath(root, cwd) if k % 2 else root)
         lines.append(A.case_line(f"f{k}", "6502", fmap, root=rootarg, cwd=cwd, search=search, dirs=DIRS + extra_dirs.get(k, [])))
     impl, model = A.run_both(lines)
     for k, (files, search, cwd, root) in enumerate(cases):
@@ -242,7 +252,9 @@ def run(tier, seed):
         if not A.agree(im, mo):
             chk.disagreements.append({"files": sorted(files), "search": search, "cwd": cwd, "root": root,
                                       "impl": str(im)[:200], "model": str(mo)[:200]})
-        want = Ref(files, search, cwd).expand(root)
+        ref = Ref(files, search, cwd)
+        aroot = root if root.startswith("/") else ref.resolve(cwd, root)      # a relative root: working directory, then the search paths
+        want = ref.expand(aroot) if aroot else None
         bad = None
         if im["kind"] in ("CRASH", "ABORT", "MISSING"):
             bad = "assembler crashed"
